@@ -247,3 +247,17 @@ Proof.
     try (unfold in_i32, in_u32, i32_min, i32_max, u32_max; lia); try (intros [C _]; discriminate); try lia.
   all: try (unfold wf_octets, u32_max; cbn; lia).
 Qed.
+
+(* pids carrying the must-understand flag 0x4000 (PID_FLAG_MUST_UNDERSTAND): the readers compare
+   the full 16-bit id, so they are unknown too - and ignored like any other unknown parameter -
+   except PID_DOMAIN_TAG = 0x4014 itself, which only the participant reader looks up *)
+Lemma must_understand_pid_unknown : forall TI (ti_dec : xdec TI) pid, 16384 <= pid <= 32767 ->
+  ~ In pid (map r_pid (topic_rtable TI ti_dec)) /\ ~ In pid (map r_pid (dwriter_rtable TI ti_dec))
+  /\ ~ In pid (map r_pid (dreader_rtable TI ti_dec))
+  /\ (pid <> PID_DOMAIN_TAG -> ~ In pid (map r_pid participant_rtable)).
+Proof.
+  intros TI ti_dec pid H. split; [|split; [|split]].
+  1-3: intros C; cbn in C; repeat (destruct C as [C|C]; [vm_compute in C; lia|]); exact C.
+  intros Hne C; cbn in C;
+    repeat (destruct C as [C|C]; [vm_compute in C; first [lia | apply Hne; vm_compute; lia]|]); exact C.
+Qed.
